@@ -40,8 +40,10 @@ def generate(rng, tier):
         handler = rng.choice(['ignore', 'errmap', 'route', 'none', 'ignore', 'route'])
         g = muxgen.Gen(rng, heads=rng.random() < 0.3, tees=False, max_depth=2)
         post = g.pipe(muxgen.INT, 1, rng.choice([0, 0, 1, 2]))[0] if handler != 'none' and raising[0] != 'scan' or handler in ('ignore', 'route') else []
-        if handler in ('errmap', 'none'):
-            post = []          # the oracle checks the mapped item / the mux error at the operator's own output
+        if handler == 'none':
+            post = []          # the oracle checks the mux error at the operator's own output
+        if handler == 'errmap' and rng.random() < 0.5:
+            post = []
         pre = [rng.choice([['map', ['add', enc(1)]], ['identity'], ['scan', ['add'], enc(0), 0, None]])] if rng.random() < 0.3 else []
         h = {'ignore': [['ignore']], 'errmap': [['errmap', ['mul', enc(-1)]]], 'route': [['route']], 'none': []}[handler]
         ctx = rng.choice(['top', 'top', 'top', 'group', 'roll'])
@@ -54,7 +56,7 @@ def generate(rng, tier):
         else:
             ast, ast_c = core_r, core_c
         trace = muxgen.gen_trace(rng, muxgen.INT)
-        cases.append({'ast': ast, 'clean': ast_c, 'pre': pre, 'bad': bad, 'code': code, 'handler': handler, 'ctx': ctx,
+        cases.append({'ast': ast, 'clean': ast_c, 'pre': pre, 'head': pre + [raising] + h, 'post': post, 'bad': bad, 'code': code, 'handler': handler, 'ctx': ctx,
                       'trace': trace, 'simple': ctx == 'top' and not pre})
     return cases
 
@@ -67,6 +69,21 @@ def run_impl(case):
         t2 = [e for e in case['trace'] if not (e[0] == 'n' and bad(dec(e[2])))]
         obs['kept'] = [i for i, e in enumerate(case['trace']) if not (e[0] == 'n' and bad(dec(e[2])))]
         obs['ref'] = muxlib.run_mux(case['clean'], t2)['steps']
+    if case['simple'] and case['handler'] == 'errmap' and case['post']:
+        # sequential composition: (head ; post) on t  must equal  post on (what head emits on t), step by step
+        a = muxlib.run_mux(case['head'], case['trace'])['steps']
+        obs['stageA'] = a
+        t2, owner = [], []
+        for i, st in enumerate(a):
+            for o in st:
+                if o[0] in ('c', 'n', 'd'):
+                    t2.append(o)
+                    owner.append(i)
+        b = muxlib.run_mux(case['post'], t2)['steps']
+        comp = [[] for _ in a]
+        for j, st in enumerate(b):
+            comp[owner[j]] += st
+        obs['composed'] = comp
     return obs
 
 
@@ -90,6 +107,15 @@ def oracle(case, obs):
         others = [i for i in range(len(steps)) if i not in failing and any(o[0] in ('e', 'fatal') for o in steps[i])]
         if others:
             return {'sig': 'errors:spurious', 'what': 'error events at non-failing positions %s' % others[:5]}
+        return None
+    if h == 'errmap' and case['post']:
+        if muxprop.has_fatal(obs['stageA']) or any(o[0] == 'e' for st in obs['stageA'] for o in st):
+            return None
+        for i, (got, want) in enumerate(zip(steps, obs['composed'])):
+            if got != want:
+                return {'sig': 'errors:map-composition', 'what': 'error.map followed by %s: event %d emitted %s, but feeding what '
+                        'the handler emits into the same operators gives %s' % (json.dumps(case['post'])[:100], i,
+                                                                               json.dumps(got)[:160], json.dumps(want)[:160])}
         return None
     if h == 'errmap':
         for i in failing:
